@@ -645,7 +645,28 @@ func genC27(seed uint64) *Plan {
 			var raw []byte
 			label := ""
 			base := append([]byte(nil), valid[r.Intn(len(valid))]...)
-			switch r.Intn(14) {
+			switch r.Intn(15) {
+			case 14:
+				// a long initiation / termination message made of very many tiny TLVs
+				n := pick(r, []int{500, 4000, 16000})
+				body := make([]byte, 0, n*5)
+				typ := pick(r, []byte{0, 1, 2})
+				for j := 0; j < n; j++ {
+					if r.Chance(0.5) {
+						body = append(body, 0, typ, 0, 0)
+					} else {
+						body = append(body, 0, typ, 0, 1, 'x')
+					}
+				}
+				mt := pick(r, []uint8{bmpInitiation, bmpTermination})
+				if mt == bmpTermination {
+					for j := 0; j+4 <= len(body); {
+						body[j+1] = 0 // termination: free-form string TLVs (type 0)
+						j += 4 + int(body[j+3])
+					}
+				}
+				raw = bmpMsg(mt, body)
+				label = "many_tiny_tlvs"
 			case 12, 13:
 				// route monitoring that wraps a BGP message other than an UPDATE, for a peer that is up
 				if r.Chance(0.8) {
